@@ -8,8 +8,8 @@ RULE = ("cases = meshes of many shapes (tetrahedron, octahedron, single triangle
         "multi-edge tori, genus 2/3 surfaces (tori with tube handles), fans, several components, dense random face sets over few "
         "vertices, pillow / duplicated / mirrored faces, bow-ties, edges shared by 3+ faces, vertex identifications, degenerate faces, "
         "isolated vertices, only-degenerate meshes, seams between point ids with and without split_mesh_on_seams, 0/1 generic attribute, "
-        "speeds 0/5/7, standard and valence traversal) built WITHOUT de-duplication and encoded by the REAL "
-        "MeshEdgebreakerEncoderImpl<TE> (template instantiated in the harness with recording subclasses of the real traversal "
+        "speeds 0/5/7, standard and valence traversal; plus 500 (4000 thorough) dense random face sets over 3-7 vertices) built WITHOUT de-duplication and encoded by the REAL "
+        "MeshEdgebreakerEncoderImpl<TE> (ASan+UBSan build; template instantiated in the harness with recording subclasses of the real traversal "
         "encoders): declared vertex/face/symbol/split counts, symbols, topology split events, start-face bits and "
         "processed_connectivity_corners_ must equal the Coq model encoder's run on the table the C13 model of CornerTable::Create "
         "builds from the same triangle list; the stream is decoded by the REAL MeshEdgebreakerDecoder and its GetCornerTable() must "
@@ -22,7 +22,9 @@ RULE = ("cases = meshes of many shapes (tetrahedron, octahedron, single triangle
         "non-trivial = encode succeeded")
 
 def corr_runs(ctx):
-    return [dict(tag="h_ebenc", harness="ebenc", driver="ebenc", args=[ctx.tier, ctx.seed],
+    env = {"ASAN_OPTIONS": "detect_leaks=0:allocator_may_return_null=1:abort_on_error=1",
+           "UBSAN_OPTIONS": "halt_on_error=1:abort_on_error=1"}
+    return [dict(tag="h_ebenc", harness="ebenc", driver="ebenc", args=[ctx.tier, ctx.seed], flavour="asan", env=env,
                  needs_vo=["Model/EbEncoder.vo", "Model/Edgebreaker.vo", "Model/CornerTable.vo", "Base/DriverSupport.vo"], timeout=3000)]
 
 def nontrivial(line):
